@@ -238,4 +238,241 @@ def gen_token_tables(repo):
     return "\n".join(out)
 
 
-GENERATORS = [("TokenTables.v", gen_token_tables)]
+NT = {  # Rust Nonterminal / function suffix -> Coq constructor of Model/Grammar.v
+    "Term": "Term", "Type": "Type_", "Variable": "Variable_", "Lambda": "Lambda", "LambdaImplicit": "LambdaImplicit",
+    "AnnotatedLambda": "AnnotatedLambda", "AnnotatedLambdaImplicit": "AnnotatedLambdaImplicit", "Pi": "Pi",
+    "PiImplicit": "PiImplicit", "NonDependentPi": "NonDependentPi", "Application": "Application", "Let": "Let",
+    "Integer": "Integer", "IntegerLiteral": "IntegerLiteral", "Negation": "Negation", "Sum": "Sum",
+    "Difference": "Difference", "Product": "Product", "Quotient": "Quotient", "LessThan": "LessThan",
+    "LessThanOrEqualTo": "LessThanOrEqualTo", "EqualTo": "EqualTo", "GreaterThan": "GreaterThan",
+    "GreaterThanOrEqualTo": "GreaterThanOrEqualTo", "Boolean": "Boolean", "True": "True_", "False": "False_",
+    "If": "If", "Group": "Group", "Atom": "Atom", "SmallTerm": "SmallTerm", "MediumTerm": "MediumTerm",
+    "LargeTerm": "LargeTerm", "HugeTerm": "HugeTerm", "GiantTerm": "GiantTerm", "JumboTerm": "JumboTerm",
+}
+SPECIAL = ("Let", "If", "Group")
+
+
+def _camel(snake):
+    return "".join(p.capitalize() for p in snake.split("_"))
+
+
+def _fn_bodies(src):
+    """{snake_name: body} for every `fn parse_x<'a>(` by brace matching."""
+    res = {}
+    for m in re.finditer(r"\nfn parse_([a-z_]+)<'a>\(", src):
+        b = src.index("{", src.index("-> (Term<'a>, usize, bool)", m.end()))
+        depth, e = 0, b
+        while True:
+            if src[e] == "{":
+                depth += 1
+            elif src[e] == "}":
+                depth -= 1
+                if depth == 0:
+                    break
+            e += 1
+        res[m.group(1)] = src[b:e + 1]
+    return res
+
+
+def _macro_calls(body):
+    """Top-level sequence of recognised statements in a regular parse function."""
+    out = []
+    pos = 0
+    pat = re.compile(
+        r"(cache_check!\(cache, (\w+), start\))"
+        r"|(try_return!\(\s*cache,\s*cache_key,\s*parse_(\w+)\(cache, tokens, start\),?\s*\))"
+        r"|(consume_token_([01])!\(\s*cache,\s*cache_key,\s*tokens,\s*(\w+),\s*(\w+),)"
+        r"|(try_eval!\(\s*cache,\s*cache_key,\s*parse_(\w+)\(cache, tokens, (\w+)\),?\s*\))"
+        r"|(=\s*parse_(\w+)\(cache, tokens, (\w+)\);)"
+        r"|(cache_return!\()")
+    for m in pat.finditer(body):
+        if m.group(1):
+            out.append(("check", m.group(2)))
+        elif m.group(3):
+            out.append(("alt", m.group(4)))
+        elif m.group(5):
+            out.append(("consume", m.group(8), m.group(7)))
+        elif m.group(9):
+            out.append(("try", m.group(10), m.group(11)))
+        elif m.group(12):
+            out.append(("commit", m.group(13), m.group(14)))
+        elif m.group(15):
+            out.append(("return",))
+    return out
+
+
+TOKV = {k.split("(")[0]: v for k, v in KIND.items() if not k.startswith("Terminator")}
+
+
+def gen_parser_skeleton(repo):
+    src = _strip_comments(_read(repo, "src/parser.rs"))
+    test = src.find("#[cfg(test)]")
+    if test > 0:
+        src = src[:test]
+    m = re.search(r"enum Nonterminal \{([^}]*)\}", src)
+    if not m:
+        raise Unrecognised("Nonterminal enum")
+    enum = [x.strip() for x in m.group(1).split(",") if x.strip()]
+    if enum != list(NT.keys()):
+        raise Unrecognised("Nonterminal enum differs from the modelled one: %s" % enum)
+    bodies = _fn_bodies(src)
+    if sorted(_camel(k) for k in bodies) != sorted(NT):
+        raise Unrecognised("parse_* functions: %s" % sorted(bodies))
+    skeleton, memo = [], []
+    for snake, body in bodies.items():
+        name = _camel(snake)
+        calls = _macro_calls(body)
+        memoised = bool(calls) and calls[0] == ("check", name)
+        # every exit must go through cache_return!/try_return!/try_eval!/consume_token: no bare `return`
+        if re.search(r"\breturn\b", body):
+            memoised = False
+        memo.append((NT[name], memoised))
+        rest = [c for c in calls if c[0] != "check"]
+        if name in SPECIAL:
+            skeleton.append((NT[name], "FSpecial"))
+            continue
+        if rest and rest[-1] == ("return",) and all(c[0] == "alt" for c in rest[:-1]) and len(rest) >= 2:
+            if "error_term(tokens, start," not in body:
+                raise Unrecognised("choice function %s: failure case" % name)
+            skeleton.append((NT[name], "FChoice [%s]" % "; ".join(NT[_camel(c[1])] for c in rest[:-1])))
+            continue
+        if rest and rest[-1] == ("return",) and all(c[0] in ("consume", "try", "commit") for c in rest[:-1]):
+            steps = []
+            cur = "start"
+            for c in rest[:-1]:
+                if c[0] == "consume":
+                    if c[2] != cur:
+                        raise Unrecognised("%s: consume at %s, expected %s" % (name, c[2], cur))
+                    if c[1] not in TOKV:
+                        raise Unrecognised("%s: token %s" % (name, c[1]))
+                    steps.append("SConsume %s" % TOKV[c[1]])
+                else:
+                    if c[2] != cur:
+                        raise Unrecognised("%s: sub-parse at %s, expected %s" % (name, c[2], cur))
+                    steps.append("%s %s" % ("STry" if c[0] == "try" else "SCommit", NT[_camel(c[1])]))
+                cur = "next"
+            skeleton.append((NT[name], "FSeq [%s]" % "; ".join(steps)))
+            continue
+        raise Unrecognised("shape of parse_%s: %s" % (snake, calls))
+    # the top-level function: the three re-association passes in order, then resolve, then check
+    m = re.search(r"reassociate_sums_and_differences\(\s*None,\s*&reassociate_products_and_quotients\(None, &reassociate_applications\(None, &term\)\),?\s*\)", src)
+    if not m:
+        raise Unrecognised("order of the re-association passes in parse()")
+    if not re.search(r"let \(term, next, _\) = parse_term\(&mut cache, tokens, 0\);", src) or \
+            "if error_factories.is_empty() && next != tokens.len()" not in src:
+        raise Unrecognised("parse(): start symbol / leftover-token check")
+    order = [NT[k] for k in NT]
+    sk = dict(skeleton)
+    mm = dict(memo)
+    out = ["(* GENERATED by tools/extract_tables.py from /repo/src/parser.rs. Do not edit. *)",
+           "From Coq Require Import List Bool.", "Import ListNotations.",
+           "Require Import Gram.Model.Token Gram.Model.Grammar.", "",
+           "Definition skeleton : list (nt * fdesc) :=", "  ["]
+    out.append(";\n".join("   (%s, %s)" % (n, sk[n]) for n in order))
+    out += ["  ].", "", "(* does the function open with cache_check! and leave only through the caching macros? *)",
+            "Definition memo_flags : list (nt * bool) :=",
+            "  [" + "; ".join("(%s, %s)" % (n, "true" if mm[n] else "false") for n in order) + "].", ""]
+    return "\n".join(out)
+
+
+GSYM = {
+    "ASTERISK": "GT KAsterisk", "BOOLEAN": "GT KBoolean", "COLON": "GT KColon", "DOUBLE_EQUALS": "GT KDoubleEquals",
+    "ELSE": "GT KElse", "EQUALS": "GT KEquals", "FALSE": "GT KFalse", "GREATER_THAN": "GT KGreaterThan",
+    "GREATER_THAN_OR_EQUAL": "GT KGreaterThanOrEqualTo", "IDENTIFIER": "GT KIdentifier", "IF": "GT KIf",
+    "INTEGER": "GT KInteger", "INTEGER_LITERAL": "GT KIntegerLiteral", "LEFT_CURLY": "GT KLeftCurly",
+    "LEFT_PAREN": "GT KLeftParen", "LESS_THAN": "GT KLessThan", "LESS_THAN_OR_EQUAL": "GT KLessThanOrEqualTo",
+    "MINUS": "GT KMinus", "PLUS": "GT KPlus", "RIGHT_CURLY": "GT KRightCurly", "RIGHT_PAREN": "GT KRightParen",
+    "SLASH": "GT KSlash", "TERMINATOR": "GTerminator", "THEN": "GT KThen", "THICK_ARROW": "GT KThickArrow",
+    "THIN_ARROW": "GT KThinArrow", "TRUE": "GT KTrue", "TYPE": "GT KType",
+}
+
+
+def gen_grammar(repo):
+    src = _read(repo, "grammar.y")
+    src = re.sub(r"/\*.*?\*/", "", src, flags=re.S)
+    parts = src.split("%%")
+    if len(parts) < 2:
+        raise Unrecognised("grammar.y sections")
+    tokens = re.findall(r"%token (\w+)", parts[0])
+    if sorted(tokens) != sorted(GSYM):
+        raise Unrecognised("grammar.y tokens: %s" % tokens)
+    rules = parts[1]
+    prods = []
+    # a rule ends at `;` or (for the one rule that lacks it) before the next `name:`
+    for m in re.finditer(r"(\w+)\s*:(.*?)(?=;|\n\w+\s*:|\Z)", rules, flags=re.S):
+        lhs = _camel(m.group(1))
+        if lhs not in NT:
+            raise Unrecognised("grammar.y nonterminal %s" % m.group(1))
+        for alt in m.group(2).split("|"):
+            syms = alt.split()
+            rhs = []
+            for sy in syms:
+                if sy == "%empty":
+                    continue
+                if sy in GSYM:
+                    rhs.append(GSYM[sy])
+                elif _camel(sy) in NT:
+                    rhs.append("GN %s" % NT[_camel(sy)])
+                elif sy == "let_annotation":
+                    rhs.append("LETANN")
+                else:
+                    raise Unrecognised("grammar.y symbol %s" % sy)
+            prods.append((lhs, rhs))
+    # let_annotation is the only helper nonterminal: expand it (empty | COLON small_term)
+    if "LetAnnotation" in [p[0] for p in prods]:
+        raise Unrecognised("let_annotation handling")
+    return prods
+
+
+def gen_grammar_v(repo):
+    src = _read(repo, "grammar.y")
+    src = re.sub(r"/\*.*?\*/", "", src, flags=re.S)
+    parts = src.split("%%")
+    if len(parts) < 2:
+        raise Unrecognised("grammar.y sections")
+    tokens = re.findall(r"%token (\w+)", parts[0])
+    if sorted(tokens) != sorted(GSYM):
+        raise Unrecognised("grammar.y tokens: %s" % tokens)
+    prods = []
+    helper = {}
+    for m in re.finditer(r"(\w+)\s*:(.*?)(?=;|\n\w+\s*:|\Z)", parts[1], flags=re.S):
+        lhs = m.group(1)
+        alts = []
+        for alt in m.group(2).split("|"):
+            alts.append([sy for sy in alt.split() if sy != "%empty"])
+        if lhs == "let_annotation":
+            helper[lhs] = alts
+        else:
+            if _camel(lhs) not in NT:
+                raise Unrecognised("grammar.y nonterminal %s" % lhs)
+            prods.append((NT[_camel(lhs)], alts))
+    if list(helper) != ["let_annotation"]:
+        raise Unrecognised("grammar.y helper nonterminals %s" % list(helper))
+    out_prods = []
+    for lhs, alts in prods:
+        for alt in alts:
+            expansions = [[]]
+            for sy in alt:
+                if sy in helper:
+                    expansions = [e + h for e in expansions for h in helper[sy]]
+                else:
+                    expansions = [e + [sy] for e in expansions]
+            for e in expansions:
+                rhs = []
+                for sy in e:
+                    if sy in GSYM:
+                        rhs.append(GSYM[sy])
+                    elif _camel(sy) in NT:
+                        rhs.append("GN %s" % NT[_camel(sy)])
+                    else:
+                        raise Unrecognised("grammar.y symbol %s" % sy)
+                out_prods.append("(%s, [%s])" % (lhs, "; ".join(rhs)))
+    if sorted(set(p[0] for p in prods)) != sorted(NT.values()):
+        raise Unrecognised("grammar.y does not define every nonterminal")
+    out = ["(* GENERATED by tools/extract_tables.py from /repo/grammar.y (let_annotation expanded). Do not edit. *)",
+           "From Coq Require Import List.", "Import ListNotations.", "Require Import Gram.Model.Token Gram.Model.Grammar.", "",
+           "Definition grammar : list production :=", "  [" + ";\n   ".join(out_prods) + "].", ""]
+    return "\n".join(out)
+
+
+GENERATORS = [("TokenTables.v", gen_token_tables), ("ParserSkeleton.v", gen_parser_skeleton), ("GrammarY.v", gen_grammar_v)]
